@@ -134,6 +134,31 @@ def run_cases(cases: List[Dict], jobs: int = 16, verbose: bool = True) -> int:
     return failed
 
 
+def summary_for(prop: str, jobs: int = 16) -> Dict:
+    """Run the corpus for one property; returns counts and failure messages (for the evidence file)."""
+    cases = load_cases(prop)
+    out = {"cases": len(cases), "mutants_detected": 0, "twins_silent": 0, "skipped": 0, "failures": [], "ids": [c["id"] for c in cases]}
+    if not cases:
+        return out
+    base = Path(tempfile.mkdtemp(prefix="rvsa-selftest-"))
+    try:
+        with ThreadPoolExecutor(max_workers=jobs) as ex:
+            results = list(ex.map(lambda c: run_case(c, base), cases))
+        for case, res in zip(cases, results):
+            ok, msg = evaluate(case, res)
+            if res["status"] == "skipped":
+                out["skipped"] += 1
+            elif ok and case["expect"] == "V":
+                out["mutants_detected"] += 1
+            elif ok:
+                out["twins_silent"] += 1
+            if not ok:
+                out["failures"].append(f"{case['id']}: {msg[:300]}")
+    finally:
+        shutil.rmtree(base, ignore_errors=True)
+    return out
+
+
 def run_for(prop: str) -> int:
     cases = load_cases(prop)
     if not cases:
